@@ -5,7 +5,7 @@
 (*   replace16 / replace24 / fbOffset                     (vesa_fb.go)     *)
 (*   VgaTextConsole.SetPaletteColor                       (vga_text.go)    *)
 (* over a flat buffer (offset o of the Go slice is fb[o + 1]) with Go's    *)
-(* bounds checks, plus Write through the C19 transcription (ConsoleModel). *)
+(* bounds checks, plus Write / write8,16,24 (all bytes of a pixel stored).  *)
 (* A geometry is chosen in Init; every action produces the event the Go    *)
 (* harness would log (outcome, buffer diff, palette diff, port writes,     *)
 (* text grid) and the event is judged by ConsCfg!Mon, the same operators   *)
@@ -23,7 +23,7 @@ CONSTANTS Geoms,      \* set of [id, cons, w, h, pitch, bpp, ci]
           MaxOps, Bug, Emit, ModelDevs
 
 P == INSTANCE ConsCfg WITH Devs <- ModelDevs
-C == INSTANCE Console WITH Devs <- {}
+C == INSTANCE ConsoleBase
 W32 == INSTANCE Word WITH LimbBits <- 16, NLimbs <- 2
 
 VARIABLES g, fb, pal, offY, fnt, cols, nrows, logo, nops, script, s, mismatch
@@ -32,12 +32,6 @@ vars == <<g, fb, pal, offY, fnt, cols, nrows, logo, nops, script, s, mismatch>>
 IsFb == g.cons = "fb"
 B == IF IsFb THEN (g.bpp + 1) \div 8 ELSE 1
 N == Len(fb)
-
-\* the C19 transcription of Write, looking at this model's console
-CG == [cons |-> g.cons, w |-> g.w, h |-> g.h, pitch |-> g.pitch, bpp |-> g.bpp, ci |-> g.ci, offY |-> offY,
-       gw |-> Fonts[fnt].gw, gh |-> Fonts[fnt].gh, bpr |-> Fonts[fnt].bpr, fd |-> Fonts[fnt].fd, pal |-> pal, clear |-> 0]
-CM == INSTANCE ConsoleModel WITH g <- CG, Geoms <- {}, Args <- {}, Chars <- {}, ColPairs <- {}, FillCols <- {}, VgaCols <- {},
-                                 VgaFill <- {}, Bug <- "", Emit <- FALSE
 
 --------------------------------------------------------------------------
 (* machine state of one call: st = [fb, pal, ports, panic] *)
@@ -119,6 +113,26 @@ SetLogoM(st, l) ==
               [] l.align = 2 -> IF Bug = "LogoRightIsLeft" THEN 0 ELSE g.w - l.w
   IN DrawRows(st1, l, off, 0, FbOffset(x0, 0))
 
+(* ---- Write / write8 / write16 / write24 (x, y small naturals) ---- *)
+FdAt(fo) == IF fo + 1 <= Len(Fonts[fnt].fd) THEN Fonts[fnt].fd[fo + 1] ELSE 0
+\* inner loop: one glyph row; the bit mask runs from 128 down and is reloaded with the next font byte when it reaches 0
+RECURSIVE WrPx(_, _, _, _, _, _, _)
+WrPx(st, x, fbo, mask, fo, FG, BG) ==
+  IF x = Fonts[fnt].gw THEN [st |-> st, fo |-> fo]
+  ELSE LET rst == mask = 0
+           fo2 == IF rst THEN fo + 1 ELSE fo
+           m2  == IF rst THEN 128 ELSE mask
+           bit == (FdAt(fo2) \div m2) % 2 = 1
+       IN WrPx(PutBytes(st, fbo, IF bit THEN FG ELSE BG, 1), x + 1, fbo + B, m2 \div 2, fo2, FG, BG)
+RECURSIVE WrRows(_, _, _, _, _, _)
+WrRows(st, y, fbRow, fo, FG, BG) ==
+  IF y = Fonts[fnt].gh THEN st
+  ELSE LET r == WrPx(st, 0, fbRow, 128, fo, FG, BG) IN WrRows(r.st, y + 1, fbRow + g.pitch, r.fo + 1, FG, BG)
+WriteM(st, ch, fg, bg, x, y) ==
+  IF x < 1 \/ x > cols \/ y < 1 \/ y > nrows \/ fnt = 0 THEN st
+  ELSE WrRows(st, 0, FbOffset((x - 1) * Fonts[fnt].gw, (y - 1) * Fonts[fnt].gh), ch * Fonts[fnt].bpr * Fonts[fnt].gh,
+              PixelM(st.pal, fg), PixelM(st.pal, bg))
+
 --------------------------------------------------------------------------
 (* events *)
 RowsOf(f) == [r \in 1..g.h |-> SubSeq(f, (r - 1) * g.pitch + 1, r * g.pitch)]
@@ -168,8 +182,7 @@ DoSetPal(op) ==
        offY, fnt, cols, nrows, logo)
 WN(n) == W32!FromNat(n)
 DoWrite(wr) ==
-  LET st == CM!WriteM([fb |-> fb, panic |-> FALSE], wr[1], wr[2], wr[3], WN(wr[4]), WN(wr[5])) IN
-  Step([fb |-> st.fb, pal |-> pal, ports |-> <<>>, panic |-> st.panic],
+  Step(WriteM(St0, wr[1], wr[2], wr[3], wr[4], wr[5]),
        [k |-> "write", ch |-> wr[1], fg |-> wr[2], bg |-> wr[3], x |-> WN(wr[4]), y |-> WN(wr[5])],
        [op |-> "write", a |-> wr], offY, fnt, cols, nrows, logo)
 
@@ -185,6 +198,8 @@ Fb0(ge) ==
           IN IF ge.bpp = 8 THEN ci
              \* (every third slot of an XRGB buffer carries a foreign top byte below the same colour bytes)
              ELSE IF k = 3 /\ C!MaskByte(ge.ci, 3) = 0 /\ (r + p) % 3 = 0 THEN 170
+             \* (with colour fields wider than 8 bits every third slot has the free low bits of the fields set)
+             ELSE IF C!HasWideField(ge.ci) /\ (r + p) % 3 = 1 THEN C!PackByte(ge.ci, DefPal[ci + 1], k) | C!SlackByte(ge.ci, k)
              ELSE C!PackByte(ge.ci, DefPal[ci + 1], k)]
 
 Init ==
@@ -206,9 +221,7 @@ Next == /\ mismatch = <<>> /\ nops < MaxOps
         /\ \/ IsFb /\ \E i \in 0..Len(Fonts) : DoSetFont(i)
            \/ IsFb /\ \E i \in 0..Len(Logos) : (IF i = 0 THEN TRUE ELSE logo = 0 /\ Logos[i].w <= g.w /\ Logos[i].h <= g.h) /\ DoSetLogo(i)
            \/ \E op \in PalOps : DoSetPal(op)
-           \* (the C19 transcription stores three bytes of a 32-bpp pixel: only layouts without a component in byte 3)
-           \/ IsFb /\ fnt # 0 /\ nrows = (g.h - offY) \div Fonts[fnt].gh /\ (B < 4 \/ C!MaskByte(g.ci, 3) = 0)
-              /\ \E wr \in Writes : DoWrite(wr)
+           \/ IsFb /\ fnt # 0 /\ nrows = (g.h - offY) \div Fonts[fnt].gh /\ \E wr \in Writes : DoWrite(wr)
 
 NoMismatch == mismatch = <<>>
 Tracked == /\ s.rows = RowsOf(fb) /\ s.pal = pal /\ s.offY = offY /\ s.cols = cols /\ s.nrows = nrows
